@@ -40,6 +40,11 @@ ASSUMPTIONS = [
     "encoding in use; inside these bounds (established on the unchanged tree) inner blanks, tabs, no-break spaces, the other delimiters, quotes, '%', number look-alikes "
     "('007', '1e3', '-0') and the empty string are driven; unicode whitespace outside latin-1 and control characters (\\r, \\x0b ...) are not; attribute names are identifiers; attribute values are what JSON represents faithfully (str, int, finite float, bool, None, lists, string-keyed "
     "dicts) and are compared type-strictly",
+    "attribute names: identifiers passed as keyword arguments, plus (35 % of the networks) parameter names of the functions involved ('node', 'members', 'idx', 'edge', 'attr', 'self', 'data', "
+    "'nodes', 'edges', 'name', 'values'), non-identifiers ('my key', 'a-b', '', '1') and HIF/JSON field names ('attrs', 'incidences', 'network-type', 'metadata', ...), applied only through "
+    "set_*_attributes(dict of dicts) / net.nodes[n][k] = v / net[k] = v. Excluded because the unchanged tree cannot carry them (probed for every name x place x class x format): 'node'/'self' on an "
+    "isolated node and 'members'/'idx'/'self' on an empty edge for HIF (the reader creates those with add_node(n, **attrs) / add_edge(members, idx, **attrs)) - never generated, and an in-place edit "
+    "that would produce one is not written; 'node'/'self' on any node for write_json/read_json (from_hypergraph_dict creates every node with add_node(n, **attrs)) - never generated there",
     "inputs failing the C01/C02/C03 structural invariant are discarded and counted (invalid-start-state)",
     "write_json/read_json are driven with Hypergraph only (the statement says undirected hypergraphs); text formats with Hypergraph and SimplicialComplex "
     "(the writers list members without direction), never with empty edges (no representation), compared on incidences only: edge-list and matrix files "
@@ -63,7 +68,7 @@ ENCODINGS = (None, "utf-8", "latin-1", "cp1252")   # None = the parameter is lef
 COMMENTS = ("default", "#", "%", "//", None)        # "default" = the parameter is left out (documented default '#')
 
 
-QUICK = {"hif": 5400, "hif-collection": 1300, "json": 2500, "json-collection": 1000, "edgelist": 4000, "bipartite": 4000, "incidence": 4000}
+QUICK = {"hif": 4800, "hif-collection": 1150, "json": 2200, "json-collection": 900, "edgelist": 3500, "bipartite": 3500, "incidence": 3500}
 
 
 def plan(tier):
@@ -107,8 +112,11 @@ def floors(tier):
         "text:empty-string-label:edgelist": 80 * k, "text:empty-string-label:bipartite": 80 * k,
         "text:other-delimiter-in-labels:edgelist": 400 * k, "text:other-delimiter-in-labels:bipartite": 700 * k,
         "text:non-ascii-labels": 2800 * k, "text:non-ascii-labels-in-single-byte-encoding": 1200 * k, "text:hash-in-labels": 800 * k,
-        "tempdirs-removed": sum(plan(tier).values()),
     })
+    # the numbers above are 50-70 % of what seed 0 shows; a further factor keeps every floor at or below half of any seed's count
+    f = {name: int(v * 0.52) for name, v in f.items()}
+    f.update({"feat:wild-attr-names": 4000 * k, "feat:node-attr-named-like-add_node-parameter": 200 * k, "feat:edge-attr-named-like-add_edge-parameter": 450 * k})
+    f["tempdirs-removed"] = sum(plan(tier).values())  # exact by construction: one directory per case, gone when the case ends
     return f
 
 
@@ -194,7 +202,7 @@ class Ctx:
             self.fail(f"{name}|{trigger}|raises", f"{name} [{variant}] raised {type(exc).__name__}: {exc}", self.witness(infos, files() if callable(files) else files))
             return None
 
-    def session(self, rng, writer, reader, trigger, a, b, write, read, check, variant, files, differs, relocate):
+    def session(self, rng, writer, reader, trigger, a, b, write, read, check, variant, files, differs, relocate, usable=None):
         """write(A) read  [deface the result, read again]  write(B) to the same path, read.
 
         write(item) / read() call the library on the case's current location; check(back, item, trigger, stale_item) compares; files() lists
@@ -233,7 +241,7 @@ class Ctx:
         trig2 = REWRITTEN
         if b is None or rng.random() < 0.4:
             # the second network is the first *object*, edited in place since it was written (no label it did not have before)
-            b = _edit_in_place(rng, a)
+            b = _edit_in_place(rng, a, usable)
             if b is None:
                 self.mon.note("rewrite:in-place-edit-not-usable")
                 return
@@ -267,7 +275,7 @@ def _frozen(item):
     return dict(item, nets=[(n, dict(i)) for n, i in item["nets"]])
 
 
-def _edit_in_place(rng, item):
+def _edit_in_place(rng, item, usable=None):
     nets = [item] if _is_single(item) else item["nets"]
     out, seen = [], {}
     for net, info in nets:
@@ -275,7 +283,7 @@ def _edit_in_place(rng, item):
             out.append((net, seen[id(net)]))
             continue
         calls = O.mutate(rng, net, new_labels=False)
-        if not calls or not O.valid(net):
+        if not calls or not O.valid(net) or (usable is not None and not usable(net)):
             return None
         new = dict(info, hist=info["hist"] + ["-- written and read back once; then, in place:"] + calls, src=O.obs(net))
         if new["src"].brief() == info["src"].brief() or not new["src"].nodes or not new["src"].edges:
@@ -327,6 +335,12 @@ def _tn(t):
     return getattr(t, "__name__", None)
 
 
+def _hif_usable(net):
+    """An in-place edit may isolate a node / empty an edge whose attribute is named like a parameter of add_node / add_edge: the HIF reader of
+    the unchanged tree cannot take that (see oracles_c10.NODE_KW), so such an edited network is not written."""
+    return not O.hif_unsupported(net)
+
+
 def _differ(ia, ib):
     return ia["src"].brief() != ib["src"].brief()
 
@@ -352,19 +366,19 @@ def case_hif(c, idx, rng):
                   stale=O.expected(stale[1]["src"], nmap, emap) if stale else None)
 
     c.session(rng, "write_hif", "read_hif", cls, a, b, lambda it: xgi.write_hif(it[0], loc.path), lambda: xgi.read_hif(loc.path, nodetype=nt, edgetype=et),
-              check, variant, lambda: [loc.path], _differ(a[1], b[1]), loc.relocate)
+              check, variant, lambda: [loc.path], _differ(a[1], b[1]), loc.relocate, usable=_hif_usable)
     if idx % 100 == 0:
         c.mon.sample(a[1]["hist"])
 
 
-def _collection(c, rng, classes, same_kinds, like=None):
+def _collection(c, rng, classes, same_kinds, like=None, **kw):
     """like: a collection whose paths (container kind, names, collection_name) and label family the new one reuses."""
     n = len(like["nets"]) if like else rng.randint(1, 3)
     nk = like["nk"] if like else (rng.choice(O.NODE_KINDS) if same_kinds else None)
     ek = like["ek"] if like else (rng.choice([k for k in O.EID_KINDS if k != "str+auto"]) if same_kinds else None)
     nets = []
     for _ in range(n):
-        s = c.source(rng, rng.choice(classes), nkind=nk, ekind=ek)
+        s = c.source(rng, rng.choice(classes), nkind=nk, ekind=ek, **kw)
         if s is None:
             return None
         nets.append(s)
@@ -402,7 +416,7 @@ def case_hif_collection(c, idx, rng):
         _compare_collection(c, "read_hif_collection", kind, trig, back, names, _infos(item), O.ALL, O.ident, O.ident, variant, files(), _infos(stale))
 
     c.session(rng, "write_hif_collection", "read_hif_collection", kind, a, b, lambda it: xgi.write_hif_collection(it["arg"], loc.dir, collection_name=cname),
-              lambda: xgi.read_hif_collection(loc.path), check, variant, files, b is not None and _coll_differs(a, b), loc.relocate)
+              lambda: xgi.read_hif_collection(loc.path), check, variant, files, b is not None and _coll_differs(a, b), loc.relocate, usable=_hif_usable)
 
 
 def _compare_collection(c, reader, kind, trig, back, names, infos, clauses, nmap, emap, variant, files, stale_infos):
@@ -424,7 +438,7 @@ def _compare_collection(c, reader, kind, trig, back, names, infos, clauses, nmap
 def case_json(c, idx, rng):
     if idx % 20 == 7:
         return _json_collide(c, rng)
-    ab = c.pair(rng, "Hypergraph")
+    ab = c.pair(rng, "Hypergraph", avoid_node_names=O.NODE_KW)
     if ab is None:
         return
     a, b = ab
@@ -471,10 +485,10 @@ def _json_collide(c, rng):
 
 
 def case_json_collection(c, idx, rng):
-    a = _collection(c, rng, ("Hypergraph",), True)
+    a = _collection(c, rng, ("Hypergraph",), True, avoid_node_names=O.NODE_KW)
     if a is None:
         return
-    b = _collection(c, rng, ("Hypergraph",), True, like=a)
+    b = _collection(c, rng, ("Hypergraph",), True, like=a, avoid_node_names=O.NODE_KW)
     kind, cname, names = a["kind"], a["cname"], a["names"]
     c.mon.note(f"json-collection:{kind}")
     both = _infos(a) + _infos(b)
